@@ -6,7 +6,7 @@ import ast
 
 from ..cfg import CFG
 from ..facts import calls_in, stmt_of
-from ..index import FuncInfo, dotted_of, norm, own_nodes, text
+from ..index import FuncInfo, dotted_of, norm, own_nodes, text, short
 
 PROPERTY = "C08"
 RULES = {
@@ -27,8 +27,14 @@ RULES = {
     "R7": "a short source is an error, not a short file: every normal exit of ExternalTensor.tofile passes the test of the "
     "remaining-bytes loop (the loop that raises OSError when the source ends early), so a kernel-copy fast path cannot "
     "return with bytes still missing - otherwise the save succeeds with a truncated data file and replaces the good one",
+    "R8": "errors of data-bearing file operations propagate: on the write path (the external-data module, the safetensors "
+    "writer and the tofile methods of the tensor classes) no write, flush, close, truncate, fsync, tofile, kernel copy, "
+    "copymode, replace or rename sits under `contextlib.suppress` of OSError (or a base class of it) or in a try whose handler "
+    "for OSError / Exception / BaseException does not re-raise - buffered bytes reach the file when it is flushed or closed, so "
+    "an error swallowed there (disk full, quota, I/O error) lets the save report success and replace the good data file by "
+    "one with holes; only the removal of temporary files may ignore that they are already gone",
 }
-FLOORS = {"R1": 5, "R2": 2, "R3": 4, "R4": 3, "R5": 1, "R6": 1, "R7": 1}
+FLOORS = {"R1": 5, "R2": 2, "R3": 4, "R4": 3, "R5": 1, "R6": 1, "R7": 1, "R8": 12}
 EXPLANATION = (
     "Path-taint analysis (temp-derived vs destination-derived) over every file-system call of the single-file "
     "writer, dominator queries for the write → replace → invalidate ordering, try/finally structure of the "
@@ -445,7 +451,62 @@ def rule_r7(ctx):
               how="the test of the remaining-bytes loop lies on every path from entry to a normal exit", construct="tofile exit bypasses the remaining-bytes check")
 
 
+_DATA_OPS = {"write", "writelines", "flush", "close", "truncate", "tofile", "fsync", "sendfile", "copy_file_range", "copyfileobj",
+             "copymode", "copystat", "replace", "rename", "serialize_file", "save_file", "pwrite", "ftruncate"}
+_COVERS_OSERROR = {"OSError", "IOError", "EnvironmentError", "Exception", "BaseException"}
+
+
+def rule_r8(ctx):
+    mods = [ED, "onnx_ir._safetensors", "onnx_ir._core", "onnx_ir.tensor_adapters", "onnx_ir._io"]
+    n = 0
+    for mn in mods:
+        m = ctx.repo.modules.get(mn)
+        if m is None:
+            continue
+        for f in m.all_funcs:
+            if isinstance(f.node, ast.Lambda):
+                continue
+            if mn in ("onnx_ir._core", "onnx_ir.tensor_adapters") and f.name not in ("tofile", "_tofile"):
+                continue
+            for c in calls_in(f):
+                name = c.func.attr if isinstance(c.func, ast.Attribute) else None  # methods and module functions, never a local callable
+                if name not in _DATA_OPS:
+                    continue
+                if name in ("replace", "rename") and (dotted_of(c.func) or "").split(".")[0] not in ("os", "shutil"):
+                    continue  # str.replace etc.
+                n += 1
+                swallowed = None
+                child, p = c, getattr(c, "_parent", None)
+                while p is not None and p is not f.node:
+                    if isinstance(p, (ast.With, ast.AsyncWith)) and any(child is x or any(child is y for y in ast.walk(x)) for x in p.body):
+                        for it in p.items:
+                            ce = it.context_expr
+                            if isinstance(ce, ast.Call) and (dotted_of(ce.func) or "").endswith("suppress"):
+                                names = {(dotted_of(a) or "").split(".")[-1] for a in ce.args}
+                                if names & _COVERS_OSERROR:
+                                    swallowed = p
+                    if isinstance(p, ast.Try) and any(child is x for x in p.body):
+                        for h in p.handlers:
+                            hn = set()
+                            if h.type is None:
+                                hn = {"BaseException"}
+                            else:
+                                for t in (h.type.elts if isinstance(h.type, ast.Tuple) else [h.type]):
+                                    hn.add((dotted_of(t) or "").split(".")[-1])
+                            if hn & _COVERS_OSERROR and not any(isinstance(x, ast.Raise) for st in h.body for x in ast.walk(st)):
+                                swallowed = h
+                    child, p = p, getattr(p, "_parent", None)
+                ctx.check("R8", f"{f.local}: errors of {short(norm(c))} propagate", swallowed is None, f, c,
+                          f"an OSError raised by `{short(norm(c))}` is swallowed ({short(norm(swallowed.items[0].context_expr)) if isinstance(swallowed, ast.With) else 'except without re-raise'}): "
+                          "bytes still in the buffer are lost when this call fails (disk full, quota, I/O error), yet the save goes on, renames the incomplete "
+                          "temporary file over the existing data file and reports success",
+                          how="enclosing contextlib.suppress / try-except of every data-bearing file operation on the write path", nontrivial=False,
+                          construct=f"swallowed error of {short(norm(c))}")
+    ctx.require(n >= 12, f"only {n} data-bearing file operations found on the write path")
+
+
 def run(ctx):
+    rule_r8(ctx)
     rule_r7(ctx)
     rule_r6(ctx)
     rule_r1_r2_r3(ctx)
